@@ -188,5 +188,68 @@ func transResolverSteps(c rCase) []Step {
 		steps = append(steps, Step{Line: strings.Join([]string{"t.cv", xs(con), a.enc()}, "\t"), Go: out, Tags: []string{"t.cv:" + out},
 			Desc: fmt.Sprintf("conflictingVersion(%q, %v)", con, a)})
 	}
+	// filterPackages on 2-6 candidates of the universe
+	for k := 0; k < 2; k++ {
+		n := r.Range(2, 6)
+		var cands []tPkg
+		for i := 0; i < n; i++ {
+			c := Pick(r, all)
+			if r.Chance(6) {
+				c.p.Version = Pick(r, []string{"abc", "", "1..2"})
+			}
+			cands = append(cands, c)
+		}
+		var dq []int
+		var dqS []string
+		for i := range cands {
+			if r.Chance(15) {
+				dq = append(dq, i)
+				dqS = append(dqS, fmt.Sprint(i))
+			}
+		}
+		version, dep := "", 0
+		if r.Chance(75) {
+			dep = 1 + r.Intn(6)
+			version = Pick(r, verPool)
+			if r.Chance(50) {
+				version = Pick(r, cands).p.Version
+			}
+			if r.Chance(4) {
+				version = "zzz"
+			}
+		}
+		allowPin, preferPin := "", ""
+		if r.Chance(30) {
+			allowPin = Pick(r, []string{"edge", "local", Pick(r, cands).pin})
+		}
+		if r.Chance(30) {
+			preferPin = Pick(r, []string{"edge", "local", Pick(r, cands).pin})
+		}
+		var installed *apk.RepositoryPackage
+		instEnc := ""
+		if r.Chance(30) {
+			ip := Pick(r, cands)
+			if r.Chance(30) {
+				ip = Pick(r, all)
+			}
+			installed = ip.real()
+			instEnc = ip.enc()
+		}
+		reals := make([]*apk.RepositoryPackage, len(cands))
+		pins := make([]string, len(cands))
+		fields := []string{"t.fp", xs(version), fmt.Sprint(dep), xs(allowPin), xs(preferPin), instEnc, strings.Join(dqS, ",")}
+		for i, c := range cands {
+			reals[i], pins[i] = c.real(), c.pin
+			fields = append(fields, c.enc())
+		}
+		kept := apk.VerifFilterPackages(reals, pins, dq, allowPin, preferPin, version, dep, installed)
+		ks := make([]string, len(kept))
+		for i, x := range kept {
+			ks[i] = fmt.Sprint(x)
+		}
+		out := strings.Join(ks, ",")
+		steps = append(steps, Step{Line: strings.Join(fields, "\t"), Go: out, Tags: []string{fmt.Sprintf("t.fp:dep%d:kept%d", dep, len(kept))},
+			Desc: fmt.Sprintf("filterPackages(%v, dq=%v, version=%q, compare=%d, allowPin=%q, preferPin=%q, installed=%s)", cands, dq, version, dep, allowPin, preferPin, instEnc)})
+	}
 	return steps
 }
